@@ -42,3 +42,29 @@ def unit_tidy_model(twin=False):
     r.assumptions += ["the set of re-binding steps is the one the current tree guards with new_model; their bodies are not under this contract",
                       "new_model itself is set from the keyword counts (not pinned here)"]
     return r
+
+
+def unit_no_call_local_keys(twin=False):
+    """What a later block inherits must not depend on where the input was cut: the engine's only per-call counter is `simulation`
+    (it restarts at 1 in every Run* call); apart from recognising the DATABASE keyword of a file's first simulation, no decision of
+    the engine compares it with a constant (retention of TRANSPORT / ADVECTION definitions is keyed on the per-instance counters)."""
+    import re, glob, os
+    from vf.core import REPO
+    r = U.new_unit("C04.engine.no_decision_keyed_on_the_per_call_simulation_number", "src/phreeqcpp/readtr.cpp", "Phreeqc::read_transport", None, kind="structural")
+    allowed = {("tidy.cpp", "simulation==0")}
+    if twin:
+        allowed = set()
+    hits = []
+    for path in sorted(glob.glob(os.path.join(REPO, "src/phreeqcpp/*.cpp")) + glob.glob(os.path.join(REPO, "src/phreeqcpp/*.cxx"))):
+        txt = open(path, encoding="latin1").read()
+        txt = re.sub(r"/\*.*?\*/", lambda m: " " * len(m.group(0)), txt, flags=re.S)
+        for k, line in enumerate(txt.split("\n")):
+            code = line.split("//")[0]
+            for m in re.finditer(r"(?<![\w\.>])simulation\s*(==|!=|<=|>=|<|>)\s*(\d+)", code):
+                hits.append((os.path.basename(path), k + 1, "simulation%s%s" % (m.group(1), m.group(2))))
+    bad = [h for h in hits if (h[0], h[2]) not in allowed]
+    r.add("per_call_counter_compared_with_a_constant_only_for_the_DATABASE_keyword", DISCHARGED if not bad else FAILED, "syntactic", 0,
+          "comparisons found: %r" % (hits,))
+    r.add("reach.scan", DISCHARGED if hits else UNDECIDED, "syntactic", 0, "%d comparison(s) in the engine sources" % len(hits), kind="vacuity")
+    r.assumptions += ["text scan of src/phreeqcpp (comments removed); loop headers `for (simulation = 1;; simulation++)` are not comparisons with a constant"]
+    return r
